@@ -33,8 +33,8 @@ RULE = ("case = one configuration (differential) or one (configuration, crash po
 ASSUMPTIONS = ["Linux /proc", "the harness puts /venv/bin on PATH so that the plug-in runner script is found", "population methods get an explicit seed option"]
 CASE_TIMEOUT = 240
 SHARD_TIMEOUT = {"quick": 900, "thorough": 7200}
-REQUIRED = {"quick": {"external_runs": 25, "trace_pairs_compared": 8, "kill_runs": 8, "optimizer_process_exit_runs": 5, "evaluator_exception_runs": 3, "process_table_checked": 25, "messages_counted": 100, "messages_beyond_one_pipe_buffer": 7, "configurations_compared_at_the_pipe": 14, "explicit_start_vector_pairs": 3, "pairs_with_path_options": 4, "external_runs_with_an_evaluation_beyond_the_polling_interval": 3, "__nontrivial__": 20},
-            "thorough": {"external_runs": 300, "trace_pairs_compared": 80, "kill_runs": 120, "optimizer_process_exit_runs": 80, "evaluator_exception_runs": 50, "process_table_checked": 300, "messages_counted": 2000, "messages_beyond_one_pipe_buffer": 70, "configurations_compared_at_the_pipe": 140, "pairs_with_path_options": 40, "external_runs_with_an_evaluation_beyond_the_polling_interval": 25, "__nontrivial__": 250}}
+REQUIRED = {"quick": {"external_runs": 25, "trace_pairs_compared": 8, "kill_runs": 8, "optimizer_process_exit_runs": 5, "optimizer_error_without_message_runs": 3, "evaluator_exception_runs": 3, "process_table_checked": 25, "messages_counted": 100, "messages_beyond_one_pipe_buffer": 7, "configurations_compared_at_the_pipe": 14, "explicit_start_vector_pairs": 3, "pairs_with_path_options": 4, "external_runs_with_an_evaluation_beyond_the_polling_interval": 3, "__nontrivial__": 20},
+            "thorough": {"external_runs": 300, "trace_pairs_compared": 80, "kill_runs": 120, "optimizer_process_exit_runs": 80, "optimizer_error_without_message_runs": 50, "evaluator_exception_runs": 50, "process_table_checked": 300, "messages_counted": 2000, "messages_beyond_one_pipe_buffer": 70, "configurations_compared_at_the_pipe": 140, "pairs_with_path_options": 40, "external_runs_with_an_evaluation_beyond_the_polling_interval": 25, "__nontrivial__": 250}}
 N = {"quick": {"diff": 27, "kill": 3, "exc": 2, "exit": 2}, "thorough": {"diff": 270, "kill": 30, "exc": 20, "exit": 20}}
 MAX_ROUNDS_AFTER_DEATH = 6
 
@@ -55,6 +55,10 @@ def cases(tier, seed):
             # the optimizer process ends by itself with an error status instead of sending its k-th message (-1: at start-up),
             # without reporting anything: a library calling exit(), a failing import, an unhandled error outside its reporting
             yield {"mode": "exit", "i": i, "k": k, "status": [1, 3, 70][(k + i) % 3]}
+            if k >= 1:
+                # ... or an error without a message is raised inside the optimizer at that moment (status 0 in the stand-in): the
+                # runner reports it, the parent has to end the run with an error
+                yield {"mode": "exit", "i": i, "k": k, "status": 0}
 
 
 def gen_spec(rng, i):
@@ -172,10 +176,15 @@ class Pipes:
                 break
             time.sleep(0.01)
         self.dead = True
-        # bounded progress instead of "never hangs": the parent polls once a second; 45 s after the death it has to be back
-        self._old_handler = signal.signal(signal.SIGALRM, _parent_hung)
-        self._old_remaining = signal.alarm(45)
-        self._armed_at = time.time()
+        self._arm()
+
+    def _arm(self):
+        # bounded progress instead of "never hangs": the parent polls once a second; 45 s after the death (or after it has read
+        # an error report) it has to be back
+        if getattr(self, "_armed_at", None) is None:
+            self._old_handler = signal.signal(signal.SIGALRM, _parent_hung)
+            self._old_remaining = signal.alarm(45)
+            self._armed_at = time.time()
 
     def disarm(self):
         if getattr(self, "_armed_at", None) is not None:
@@ -201,7 +210,11 @@ class Pipes:
                     os.kill(pid, me.kill_signal)
                     me.killed = pid
                 me._await_death()
-            return me._orig[0](self_)
+            msg = me._orig[0](self_)
+            if isinstance(msg, dict) and "error" in msg:
+                me.error_reports = getattr(me, "error_reports", 0) + 1
+                me._arm()
+            return msg
 
         def write(self_, data):
             if me.dead:
@@ -348,15 +361,19 @@ K, STATUS, MARK = int(os.environ["VERIF_EXIT_AT"]), int(os.environ["VERIF_EXIT_S
 def _leave():
     with open(MARK, "w") as fh:
         fh.write("left")
+    if STATUS == 0:
+        # not an exit: an error without a message raised inside the optimizer (a bare assert, NotImplementedError, ...),
+        # which the runner reports to the parent
+        raise NotImplementedError
     os._exit(STATUS)
 if K < 0:
     _leave()
 _write, _n = os.write, [0]
 def write(fd, data):
     if stat.S_ISFIFO(os.fstat(fd).st_mode):
-        if _n[0] == K:
-            _leave()
         _n[0] += 1
+        if _n[0] == K + 1:
+            _leave()
     return _write(fd, data)
 os.write = write
 from ropt.plugins.optimizer.external import ropt_plugin_optimizer
@@ -380,10 +397,20 @@ def _exit_case(case, obs, spec, tag):
     saved = {k: os.environ.get(k) for k in ("PATH", "VERIF_EXIT_AT", "VERIF_EXIT_STATUS", "VERIF_EXIT_MARK")}
     os.environ.update({"PATH": d + os.pathsep + os.environ.get("PATH", ""), "VERIF_EXIT_AT": str(case["k"]), "VERIF_EXIT_STATUS": str(case["status"]),
                        "VERIF_EXIT_MARK": mark})
+    pipes = Pipes()
+    pipes.install()
+    hung = False
     try:
-        b = run_trace(spec, True)
+        try:
+            b = run_trace(spec, True)
+        except ParentHung:
+            hung = True
+            for pid in _children():
+                os.kill(pid, signal.SIGKILL)
         left = os.path.exists(mark)
     finally:
+        pipes.disarm()
+        pipes.remove()
         for k, v in saved.items():
             if v is None:
                 os.environ.pop(k, None)
@@ -391,9 +418,22 @@ def _exit_case(case, obs, spec, tag):
                 os.environ[k] = v
         shutil.rmtree(d, ignore_errors=True)
     obs.count("external_runs")
+    if hung:
+        obs.nontrivial(case)
+        obs.violation("parent_does_not_return_after_its_optimizer_process_reported_an_error", raised_instead_of_message=case["k"], seconds_waited=45, **tag)
+        return
     _check_process_table(obs, "after a run whose optimizer process ended by itself", tag)
     if not left:
         obs.count("exit_point_beyond_run")
+        return
+    if case["status"] == 0:
+        obs.count("optimizer_error_without_message_runs")
+        obs.count("error_reports_read_by_the_parent", getattr(pipes, "error_reports", 0))
+        obs.nontrivial(case)
+        if b["exc"] is None:
+            obs.violation("error_of_the_optimizer_process_not_raised", raised_instead_of_message=case["k"], exit_code=b["code"], **tag)
+        else:
+            obs.sample({"raised_instead_of_message": case["k"], "outcome": repr(b["exc"])})
         return
     obs.count("optimizer_process_exit_runs")
     obs.nontrivial(case)
